@@ -179,3 +179,70 @@ pub fn cases(rng: &mut Rng, count: usize, tier: &str) -> Vec<Case> {
     }
     out
 }
+
+// ---------------- C12t: ancestor queries of two terms ----------------
+
+fn obs_c12t(o: &hpo::Ontology) -> V {
+    use hpo::annotations::AnnotationId;
+    let mut terms: Vec<hpo::HpoTerm> = o.hpos().collect();
+    terms.sort_by_key(|t| t.id().as_u32());
+    let ts: Vec<V> = terms
+        .iter()
+        .map(|t| {
+            V::T(vec![
+                n(t.id().as_u32()),
+                ln(&crate::dump::gids(t.parent_ids())),
+                ln(&crate::dump::gids(t.children_ids())),
+                ln(&crate::dump::gids(t.all_parent_ids())),
+            ])
+        })
+        .collect();
+    // Combined is not nameable from outside the crate
+    macro_rules! it {
+        ($c:expr) => {
+            ln(&$c.iter().map(|t| t.id().as_u32()).collect::<Vec<u32>>())
+        };
+    }
+    let mut ps = vec![];
+    for a in &terms {
+        for bt in &terms {
+            ps.push(V::T(vec![
+                n(a.id().as_u32()),
+                n(bt.id().as_u32()),
+                V::L(vec![
+                    ln(&ids(&a.common_ancestor_ids(bt))),
+                    ln(&ids(&a.all_common_ancestor_ids(bt))),
+                    ln(&ids(&a.union_ancestor_ids(bt))),
+                    ln(&ids(&a.all_union_ancestor_ids(bt))),
+                    it!(a.common_ancestors(bt)),
+                    it!(a.all_common_ancestors(bt)),
+                    it!(a.union_ancestors(bt)),
+                    it!(a.all_union_ancestors(bt)),
+                ]),
+            ]));
+        }
+    }
+    V::T(vec![V::L(ts), V::L(ps)])
+}
+
+pub fn cases_t(rng: &mut Rng, count: usize, tier: &str) -> Vec<Case> {
+    use crate::gen::Opts;
+    let mut out = vec![];
+    while out.len() < count {
+        let mut o = Opts::default();
+        o.min_terms = 2;
+        o.max_terms = if tier == "thorough" && rng.chance(1, 6) { 22 } else { 12 };
+        o.max_records = 1;
+        o.dense = rng.chance(1, 2);
+        let mut tags = vec![];
+        let (w, f) = crate::world::gen_world(rng, o, &mut tags);
+        let b = w.build();
+        let obs = crate::world::on_onto(&b, obs_c12t);
+        // non-trivial: some term with two or more ancestors (an ancestor pair with a proper ancestor between)
+        if f.ids().iter().any(|x| f.ancestors(*x).len() >= 2) {
+            tags.push("nt");
+        }
+        out.push(Case { input: crate::world::winput(&w, f.n_records()), obs, tags });
+    }
+    out
+}
